@@ -73,7 +73,7 @@ def tree_hash():
         h.update(f.encode())
         with open(f, 'rb') as fh:
             h.update(fh.read())
-    for extra in ('harness/drv.c', 'harness/stackscan.c', 'harness/threads.c', 'gen/dump.c', 'gen/emit.py'):
+    for extra in ('harness/drv.c', 'harness/stackscan.c', 'harness/threads.c', 'harness/probe.c', 'gen/dump.c', 'gen/emit.py'):
         if not os.path.exists(os.path.join(VERIF, extra)):
             continue
         with open(os.path.join(VERIF, extra), 'rb') as fh:
@@ -101,12 +101,45 @@ class Tree:
             if d != self.dir:
                 shutil.rmtree(d, ignore_errors=True)
 
+    GROUPS = ('GF', 'PACK', 'STORE', 'BDAY', 'FEAT', 'LANG')
+
+    def internals(self):
+        """which internal interfaces the unit-level harness can reach in this tree (harness/probe.c; cached):
+        returns (compiler flags switching off the unreachable groups, list of unreachable groups)"""
+        path = os.path.join(self.dir, 'internals.json')
+        if os.path.exists(path):
+            with open(path) as f:
+                missing = json.load(f)
+        else:
+            missing = []
+            from concurrent.futures import ThreadPoolExecutor
+
+            def probe(g):
+                r = run(['gcc', '-O0', '-w', '-Werror=implicit-function-declaration', '-Werror=incompatible-pointer-types', '-DP_' + g] + INC +
+                        [os.path.join(VERIF, 'harness', 'probe.c')] + lib_sources() + ['-o', os.path.join(self.dir, 'probe-' + g)])
+                try:
+                    os.unlink(os.path.join(self.dir, 'probe-' + g))
+                except OSError:
+                    pass
+                return g, r.returncode
+            with ThreadPoolExecutor(max_workers=len(self.GROUPS)) as ex:
+                for g, rc in ex.map(probe, self.GROUPS):
+                    if rc != 0:
+                        missing.append(g)
+            # nothing links at all: the tree itself does not build; not a matter of renamed internals
+            if len(missing) == len(self.GROUPS):
+                missing = []
+            with open(path + '.tmp', 'w') as f:
+                json.dump(missing, f)
+            os.rename(path + '.tmp', path)
+        return ['-DDRV_NO_' + g for g in missing], missing
+
     def translate(self):
         """dumper (compiled from the tree) -> dump.txt -> Gen/*.lean. Returns error text or None."""
         if not os.path.exists(self.dump):
             exe = os.path.join(self.dir, 'dump')
             srcs = [os.path.join(VERIF, 'gen', 'dump.c')] + [s for s in lib_sources() if os.path.basename(s) != 'polyseed.c']
-            r = run(['gcc', '-O0', '-w'] + INC + srcs + ['-o', exe])
+            r = run(['gcc', '-O0', '-w'] + self.internals()[0] + INC + srcs + ['-o', exe])
             if r.returncode != 0:
                 return 'dumper does not compile against the tree:\n' + r.stdout[-3000:]
             r = run([exe], stderr=subprocess.PIPE)
@@ -126,7 +159,7 @@ class Tree:
         exe = os.path.join(self.dir, 'drv-' + variant)
         if os.path.exists(exe):
             return exe, None
-        cmd = [v['cc']] + v['flags'] + ['-w'] + INC + [os.path.join(VERIF, 'harness', 'drv.c')] + lib_sources() + \
+        cmd = [v['cc']] + v['flags'] + ['-w'] + self.internals()[0] + INC + [os.path.join(VERIF, 'harness', 'drv.c')] + lib_sources() + \
               ['-Wl,--wrap=malloc,--wrap=free,--wrap=time', '-lutf8proc', '-o', exe + '.tmp']
         r = run(cmd)
         if r.returncode != 0:
